@@ -244,7 +244,8 @@ def clause_nan_unless_written(ctx):
     # nobody but the fitting branch of _fit announces success
     inside = {id(n) for st in F.success_body for n in ast.walk(st)}
     for q, f in F.mod.funcs.items():
-        if not q.startswith("IndentationFitter."):
+        if not q.startswith("IndentationFitter.") or getattr(
+                f, "_inlined_helper", False):
             continue
         for n in walk_no_nested(f, False):
             hit = None
